@@ -8,6 +8,7 @@
 package main
 
 import (
+	"bytes"
 	"context"
 	"flag"
 	"fmt"
@@ -43,6 +44,7 @@ func cmdDagRace(argv []string) {
 				}
 			}
 		}
+		buffered := r.Intn(2) == 0
 		attempts := make([]int, nv)
 		failFirst := make([]bool, nv)
 		tasks := make([]*dag.Task, nv)
@@ -51,6 +53,11 @@ func cmdDagRace(argv []string) {
 			failFirst[i] = r.Intn(5) == 0
 			sleep := time.Duration(r.Intn(300)) * time.Microsecond
 			tasks[i] = dag.NewTask(fmt.Sprintf("t%d", i), func(ctx context.Context, opt *getoptions.GetOpt, args []string) error {
+				// with SetOutputBuffer the library hands each attempt's output to the writer; the writer
+				// below is a plain buffer, so two hand-overs that are not serialised are a data race
+				if buffered {
+					fmt.Fprintf(dag.Stdout(ctx), "<t%d attempt %d>", i, attempts[i])
+				}
 				for _, j := range deps[i] {
 					if data[j] != j+1 {
 						wrong[i] = fmt.Sprintf("t%d entered before the write of its dependency t%d was visible (read %d)", i, j, data[j])
@@ -67,6 +74,10 @@ func cmdDagRace(argv []string) {
 		}
 		g := dag.NewGraph("g")
 		g.TickerDuration = 100 * time.Microsecond
+		var out bytes.Buffer // deliberately without a lock
+		if buffered {
+			g.SetOutputBuffer(&out)
+		}
 		switch r.Intn(4) {
 		case 0:
 			g.SetSerial()
